@@ -81,7 +81,7 @@ Proof.
   destruct (H1 pre k) as [L1 E1]. rewrite E1.
   destruct (H2 (pre ++ raw (g1 k)) (k - size (g1 k))) as [L2 E2]. rewrite E2.
   rewrite size_app, raw_app. split; [lia|].
-  rewrite !app_assoc. repeat f_equal. lia.
+  rewrite Nat.sub_add_distr, !app_assoc. reflexivity.
 Qed.
 
 (* a stage that emits nothing *)
@@ -106,24 +106,24 @@ Proof.
   intros pre k. unfold w_appearance, g_appearance. destruct a as [v|].
   - rewrite room. destruct (4 <=? k) eqn:E.
     + apply put_one; [reflexivity | simpl; lia].
-    + split; [simpl; lia | apply skip_none].
-  - split; [simpl; lia | apply skip_none].
+    + split; [apply Nat.le_0_l | apply skip_none].
+  - split; [apply Nat.le_0_l | apply skip_none].
 Qed.
 
 Lemma sat_name n : sat (w_name n) (g_name n).
 Proof.
   intros pre k. unfold w_name, g_name. destruct n as [l|].
   - rewrite room. destruct (k <=? 2) eqn:E; simpl orb.
-    + split; [simpl; lia | apply skip_none].
+    + split; [apply Nat.le_0_l | apply skip_none].
     + destruct (length l) as [|nl] eqn:EL.
-      * simpl. split; [lia | apply skip_none].
+      * simpl. split; [apply Nat.le_0_l | apply skip_none].
       * change (0 <? S nl) with true. change (S nl =? 0) with false. cbv iota.
         set (m := Nat.min (S nl) (k - 2)).
         assert (Hm : length (firstn m l) = m) by (rewrite firstn_length; lia).
         apply put_one.
         -- simpl. rewrite Hm. replace (m + 1) with (S m) by lia. reflexivity.
         -- simpl. rewrite Hm. lia.
-  - split; [simpl; lia | apply skip_none].
+  - split; [apply Nat.le_0_l | apply skip_none].
 Qed.
 
 Lemma enc16_length us : length (enc16 us) = 2 * length us.
@@ -132,11 +132,11 @@ Proof. unfold enc16. induction us; simpl; [reflexivity | lia]. Qed.
 Lemma sat_uuid16 us : sat (w_uuid16 us) (g_uuid16 us).
 Proof.
   intros pre k. unfold w_uuid16, g_uuid16. destruct us as [|u us'].
-  - rewrite Bool.orb_true_r. split; [simpl; lia | apply skip_none].
+  - rewrite Bool.orb_true_r. split; [apply Nat.le_0_l | apply skip_none].
   - rewrite room. set (us := u :: us').
     change (length us =? 0) with false. rewrite Bool.orb_false_r.
     destruct (k <? 4) eqn:E.
-    + split; [simpl; lia | apply skip_none].
+    + split; [apply Nat.le_0_l | apply skip_none].
     + set (m := Nat.min ((k - 2) / 2) (length us)).
       assert (Hm : length (enc16 (firstn m us)) = 2 * m) by (rewrite enc16_length, firstn_length; lia).
       pose proof (Nat.mul_div_le (k - 2) 2).
@@ -169,9 +169,12 @@ Proof.
       unfold seq. rewrite put_fresh by lia. rewrite Hu.
       specialize (IH (pre ++ u) (k - 16)). cbv zeta in IH. rewrite IH.
       assert (Hd : k / 16 = S ((k - 16) / 16)).
-      { replace k with ((k - 16) + 1 * 16) at 1 by lia. rewrite Nat.div_add by lia. lia. }
+      { pose proof (Nat.div_add (k - 16) 1 16 ltac:(lia)) as D.
+        replace (k - 16 + 1 * 16) with k in D by lia. lia. }
       rewrite Hd. cbn [length]. rewrite <- Nat.succ_min_distr. cbn [firstn concat].
-      rewrite !app_assoc. repeat f_equal. lia.
+      rewrite !app_assoc.
+      replace (k - 16 * S (Nat.min ((k - 16) / 16) (length t))) with (k - 16 - 16 * Nat.min ((k - 16) / 16) (length t)) by lia.
+      reflexivity.
     + assert (k < 16) by lia.
       specialize (IH pre k). cbv zeta in IH. rewrite IH.
       rewrite Nat.div_small by lia. simpl. reflexivity.
@@ -180,12 +183,12 @@ Qed.
 Lemma sat_uuid128 us : Forall (fun u => length u = 16) us -> sat (w_uuid128 us) (g_uuid128 us).
 Proof.
   intros W pre k. unfold w_uuid128, g_uuid128. destruct us as [|u us'].
-  - rewrite Bool.orb_true_r. split; [simpl; lia | apply skip_none].
+  - rewrite Bool.orb_true_r. split; [apply Nat.le_0_l | apply skip_none].
   - rewrite room. set (us := u :: us') in *.
     change (length us =? 0) with false. rewrite Bool.orb_false_r.
     change (2 + 16) with 18.
     destruct (k <? 18) eqn:E.
-    + split; [simpl; lia | apply skip_none].
+    + split; [apply Nat.le_0_l | apply skip_none].
     + set (m := Nat.min ((k - 2) / 16) (length us)).
       assert (Hm : length (concat (firstn m us)) = 16 * m).
       { rewrite concat16_length by (apply Forall_firstn; exact W). rewrite firstn_length. lia. }
@@ -206,15 +209,15 @@ Proof.
   intros pre k. unfold w_range, g_range. destruct r as [[mn mx]|].
   - rewrite room. destruct (6 <=? k) eqn:E.
     + apply put_one; [reflexivity | simpl; lia].
-    + split; [simpl; lia | apply skip_none].
-  - split; [simpl; lia | apply skip_none].
+    + split; [apply Nat.le_0_l | apply skip_none].
+  - split; [apply Nat.le_0_l | apply skip_none].
 Qed.
 
 Lemma sat_tail : sat w_tail g_tail.
 Proof.
   intros pre k. unfold w_tail, g_tail. rewrite room. destruct (2 <=? k) eqn:E.
   - split; [simpl; lia|]. rewrite put_fresh by (simpl; lia). reflexivity.
-  - split; [simpl; lia | apply skip_none].
+  - split; [apply Nat.le_0_l | apply skip_none].
 Qed.
 
 Lemma sat_flags0 k :
